@@ -816,7 +816,12 @@ def _run(${ctx}text, pos, start, fullparse):
     memo = {}
     result = None
 
+    # (The arguments of a parameterised entry point need not be hashable.)
     key = ($CALL, start, pos)
+    try:
+        hash(key)
+    except TypeError:
+        key = None
     gtor = start(${ctx}text, pos)
     stack = [(key, gtor)]
 
